@@ -152,6 +152,16 @@ func e6Case(seed uint64, n int, race bool) Case {
 				if cur != nil && rng.Chance(20) {
 					typ, lab = kcacheDelete, cur.GetLabels()
 				}
+				if cur != nil && rng.Chance(6) {
+					// a redelivered / stale version of a cached object: publishes nothing
+					old := strconv.Itoa(kit.Atoi(cur.GetResourceVersion()) - rng.Intn(2))
+					if evts, err := g.apply(kcacheUpdate, kit.Pod(ns, name, old, lab)); err != nil || len(evts) != 0 {
+						r.V("C05", "stale-version-published", "a wire event with version %s for %s/%s cached at %s published %d event(s) (err=%v)", old, ns, name, cur.GetResourceVersion(), len(evts), err)
+						failed = true
+						break
+					}
+					r.Add("stale-wire-events", 1)
+				}
 				started.Add(1) // every wire event here yields exactly one published event
 				evts, err := g.apply(typ, kit.Pod(ns, name, rv, lab))
 				if err != nil || len(evts) != 1 {
@@ -180,6 +190,22 @@ func e6Case(seed uint64, n int, race bool) Case {
 			if rng.Chance(40) && len(t.nodes) < 24 {
 				addLeaf(rng, false)
 			}
+		}
+		stopAfterBurst := n%3 == 0 && !failed
+		if stopAfterBurst {
+			// a last burst immediately followed by the shutdown of the root: every
+			// event whose publication returned must still reach every open leaf
+			// before its Events() channel is closed
+			for i := 0; i < 1+rng.Intn(20); i++ {
+				ns, name := u.nss[rng.Intn(len(u.nss))], u.names[rng.Intn(len(u.names))]
+				rv := strconv.Itoa(g.nextRV)
+				g.nextRV++
+				if _, err := g.apply(kcacheUpdate, kit.Pod(ns, name, rv, u.labels[rng.Intn(len(u.labels))])); err != nil {
+					break
+				}
+			}
+			g.root.Stop()
+			r.Add("burst-then-stop-cases", 1)
 		}
 		g.barrier()
 		sent := g.sent
